@@ -107,3 +107,72 @@ theorem sopAcceptsNumbers_is_source_loop (numbers : List Int) : sopAcceptsNumber
   rw [List.range_eq_range']
 
 end HdVerif.Ann
+
+namespace HdVerif.Ann
+open HdVerif HdVerif.Gen
+
+/-! ### the group constructor's check of every `measurements` item -/
+
+theorem assignAll_err_index {β : Type} (n : Nat) (ps : List (Int × β)) : ∀ (acc : List (Option β)) (e : ErrKind),
+    assignAll n ps acc = .error e → e = .index := by
+  induction ps with
+  | nil => intro acc e h; simp [assignAll] at h
+  | cons p rest ih =>
+    intro acc e h
+    obtain ⟨i, v⟩ := p
+    simp only [assignAll] at h
+    split at h
+    · cases h; rfl
+    · exact ih _ e h
+
+/-- `Measurements.get_values` raises nothing but IndexError -/
+theorem getValues_err_index {β : Type} (m : MeasEnc β) (n : Nat) (e : ErrKind) (h : getValues m n = .error e) : e = .index := by
+  unfold getValues at h
+  simp only [measIndexGuard_spec] at h
+  by_cases hc : (m.values.length : Int) ≠ (if m.indices.isSome = true then ((m.indices.getD []).length : Int) else (n : Int))
+  · rw [if_pos hc] at h
+    cases h; rfl
+  · rw [if_neg hc] at h
+    exact assignAll_err_index n _ _ e h
+
+/-- **`checkMeas` is the regenerated loop body** (`Gen.measCheckPlan`: the `try / except IndexError` of the source is the
+input `get_values_raises_index_error`): applied to the remembered number of values, to whether `get_values` raises, and to
+the length of what it returns -/
+theorem checkMeas_follows_plan {β : Type} (m : MeasEnc β) (n : Nat) :
+    checkMeas m n =
+      (match getValues m n with
+       | .error _ => (measCheckPlan (m.numberOfValues.map (fun (k : Nat) => (k : Int))) true true (n : Int) 0).map (fun _ => ())
+       | .ok vals => (measCheckPlan (m.numberOfValues.map (fun (k : Nat) => (k : Int))) false true (n : Int) (vals.length : Int)).map
+           (fun _ => ())) := by
+  unfold checkMeas measCheckPlan
+  cases hn : m.numberOfValues with
+  | none =>
+    simp only [Option.map_none]
+    cases hg : getValues m n with
+    | error e =>
+      have := getValues_err_index m n e hg
+      subst this
+      simp [Except.map]
+    | ok vals =>
+      by_cases hl : vals.length = n
+      · simp [hl, Except.map]
+      · have : ¬ ((vals.length : Int) = (n : Int)) := by omega
+        simp [hl, this, Except.map]
+  | some k =>
+    simp only [Option.map_some]
+    by_cases hk : k = n
+    · subst hk
+      cases hg : getValues m k with
+      | error e =>
+        have := getValues_err_index m k e hg
+        subst this
+        simp [Except.map]
+      | ok vals =>
+        by_cases hl : vals.length = k
+        · simp [hl, Except.map]
+        · have : ¬ ((vals.length : Int) = (k : Int)) := by omega
+          simp [hl, this, Except.map]
+    · have : ¬ ((k : Int) = (n : Int)) := by omega
+      cases hg : getValues m n <;> simp [hk, this, Except.map]
+
+end HdVerif.Ann
